@@ -489,6 +489,16 @@ def key_encrypt(supplied):
             added = s.ghost.get('added', ())
             r.oblige(s, 'message-carries-the-container-and-the-session-key-packet/p%d' % pi,
                      z3.BoolVal(len(added) == 2 and {getattr(x, 'ref', None) for x in added} == {'pkesk', 'seipd'} and isinstance(v, E.VObj) and v.ref == 'out'))
+            if not supplied:
+                # no hidden state: the SAME message object encrypted once more gets a session key of its own (the next draw)
+                for qi, (s2, v2) in enumerate(ex.call_func(E.VFunc(r.node, None, cls=r.dcls, self_val=me, mod=r.mod), list(args), {}, s, {'mod': r.mod})):
+                    if isinstance(v2, E.Raise):
+                        r.oblige(s2, 'second-encryption-of-the-same-message:safety(%s)/p%d.%d' % (v2.exc.split(':')[0], pi, qi), z3.BoolVal(False), v2.where)
+                        continue
+                    d2, e2, a2 = s2.ghost.get('rand', ()), s2.ghost.get('encrypt_sk_args'), s2.ghost.get('seipd_args')
+                    okk = len(d2) == 2 and e2 is not None and a2 is not None and e2 is not ea
+                    r.oblige(s2, 'second-encryption-of-the-same-message:its-session-key-is-a-second-fresh-draw/p%d.%d' % (pi, qi),
+                             z3.And(z3.BoolVal(okk), z3.And(d2[1][0] == 32, ex.seq(e2[2], s2) == d2[1][1], ex.seq(a2[0], s2) == d2[1][1]) if okk else z3.BoolVal(False)))
         return r.result()
     return Scenario(label, KEY + '.encrypt', gen, props=('C03', 'C13', 'C16', 'C18'))
 
@@ -945,6 +955,16 @@ def message_encrypt(supplied, already):
                          z3.And(z3.BoolVal(sa is not None), z3.And(ex.seq(sa[0], s) == ex.seq(ea[1], s), ex.as_int(sa[1]) == 9, ex.seq(sa[2], s) == PLAIN) if sa is not None else z3.BoolVal(False)))
                 r.oblige(s, 'result:session-key-packet-then-the-container/p%d' % pi,
                          z3.BoolVal([x[1].ref for x in added if isinstance(x[1], E.VObj)] == ['skesk', 'seipd'] and isinstance(v, E.VObj) and v.ref == 'out'))
+            if not supplied and not already:
+                # no hidden state: the SAME message object encrypted once more gets a session key of its own (the next draw)
+                for qi, (s2, v2) in enumerate(ex.call_func(E.VFunc(r.node, None, cls=r.dcls, self_val=me, mod=r.mod), [PW], dict(kws), s, {'mod': r.mod})):
+                    if isinstance(v2, E.Raise):
+                        r.oblige(s2, 'second-encryption-of-the-same-message:safety(%s)/p%d.%d' % (v2.exc.split(':')[0], pi, qi), z3.BoolVal(False), v2.where)
+                        continue
+                    d2, e2, a2 = s2.ghost.get('rand', ()), s2.ghost.get('encrypt_sk_args'), s2.ghost.get('seipd_args')
+                    okk = len(d2) == 2 and e2 is not None and a2 is not None and e2 is not ea
+                    r.oblige(s2, 'second-encryption-of-the-same-message:its-session-key-is-a-second-fresh-draw/p%d.%d' % (pi, qi),
+                             z3.And(z3.BoolVal(okk), z3.And(d2[1][0] == 32, ex.seq(e2[1], s2) == d2[1][1], ex.seq(a2[0], s2) == d2[1][1]) if okk else z3.BoolVal(False)))
         return r.result()
     return Scenario(label, MSG + '.encrypt', gen, props=('C03', 'C13'))
 
